@@ -1142,6 +1142,15 @@ def _g3():
         'mul-lit': (['s32', 's32'], ['with REAL:', '    a = u * 3', 'with {C}:', '    return a + v']),
         'range-affine': (['l64', 's64'], ['acc = v', 'for i in range(4):', '    with REAL:', '        k = i * 2 + 1',
                                           '    with {C}:', '        acc = acc * k + v', 'return acc']),
+        # range() with a non-unit step: the exit value start + len*step lies past `stop`, on the far side of an
+        # int8 / int16 limit in the first and third shape (the second is the aligned control)
+        'range-step-i8': (['l64', 's64'], ['acc = v', 'for i in range(0, 127, 3):', '    with REAL:', '        k = i + 1',
+                                           '    with {C}:', '        acc = acc + k', 'return acc']),
+        'range-step-i8-aligned': (['l64', 's64'], ['acc = v', 'for i in range(0, 126, 3):', '    with REAL:',
+                                                   '        k = i + 1', '    with {C}:', '        acc = acc + k',
+                                                   'return acc']),
+        'range-step-i16': (['l64', 's64'], ['acc = v', 'for _ in range(5, 32767, 5):', '    with {C}:',
+                                            '        acc = acc + 1', 'return acc']),
         'real-in-ctx': (['s32', 's32'], ['with {C32}:', '    a = u + v', '    with REAL:', '        b = a * u',
                                          'with {C}:', '    return b - a']),
         'real-round': (['s32', 's32'], ['with REAL:', '    a = u * v', 'with {C32}:', '    return round(a)']),
